@@ -46,14 +46,14 @@ def fixes():
     return [f for f in re.split(r'[,\s]+', env.strip()) if f]
 
 
-def mc(name, names, maxchain, fx, known, only_chains=(), invariants=()):
+def mc(name, names, maxchain, fx, known, only_chains=(), invariants=(), detail=True):
     if only_chains:
         tla = '---- MODULE %s ----\nEXTENDS Savable\nMCOnly == {%s}\n====\n' % (name, ', '.join(tlaval.emit(c) for c in only_chains))
     else:
         tla = '---- MODULE %s ----\nEXTENDS Savable\nMCOnly == {}\n====\n' % name
     cfg = 'SPECIFICATION Spec\nCHECK_DEADLOCK FALSE\nCONSTANTS\n Names = %s\n MaxChain = %d\n Kinds = %s\n Loaders = %s\n Unknowns = %s\n' % (
         tlaval.emit(set(names)), maxchain, tlaval.emit(set(KINDS)), tlaval.emit(set(LOADERS)), tlaval.emit(set(UNKNOWNS)))
-    cfg += ' Fixes = %s\n Known = %s\n OnlyChains <- MCOnly\n' % (tlaval.emit(set(fx)), tlaval.emit(set(known)))
+    cfg += ' Fixes = %s\n Known = %s\n OnlyChains <- MCOnly\n Detail = %s\n' % (tlaval.emit(set(fx)), tlaval.emit(set(known)), 'TRUE' if detail else 'FALSE')
     cfg += ''.join('INVARIANT %s\n' % i for i in invariants)
     return tla, cfg
 
@@ -221,12 +221,12 @@ def run(tier, seed):
     verdict_res = {}
 
     def verdict_run(v):
-        tla, cfg = mc(v['name'], v['names'], v['maxchain'], fx, known, invariants=invs)
+        tla, cfg = mc(v['name'], v['names'], v['maxchain'], fx, known, invariants=invs, detail=False)
         try:
             with tlc.Workdir() as wd:
                 wd.write(v['name'] + '.tla', tla)
                 wd.write(v['name'] + '.cfg', cfg)
-                verdict_res[v['name']] = tlc.run(wd, v['name'] + '.tla', v['name'] + '.cfg', timeout=3000, workers=8)
+                verdict_res[v['name']] = tlc.run(wd, v['name'] + '.tla', v['name'] + '.cfg', timeout=3000, workers=8 if tier == 'quick' else 12)
         except Exception as e:  # noqa
             verdict_res[v['name']] = e
     threads = [threading.Thread(target=verdict_run, args=(v,)) for v in verdict]
